@@ -12,6 +12,8 @@ A, B, C = c04.A, c04.B, "/'g'/'c'"
 PATHS_EAGER = ['slice_all', 'ellipsis', 'read_data', 'data', 'iter', 'index', 'raw_data', 'read_unscaled', 'window', 'raw_after_scaled']
 PATHS_LAZY = ['slice_all', 'ellipsis', 'read_data', 'iter', 'index', 'chan_chunks', 'file_chunks', 'read_unscaled', 'window', 'raw_after_scaled']
 
+from . import kdedup
+
 MANIFEST = dict(
     category='model_checking',
     text="Bounded symbolic execution of every documented access path (eager: [:], [...], read_data(), .data, iteration, [i], raw_data, "
@@ -29,14 +31,16 @@ META = dict(
     functions=['tdms.TdmsFile._read_data', 'tdms.TdmsChannel.__getitem__', 'tdms.TdmsChannel.__iter__', 'tdms.TdmsChannel.data',
                'tdms.TdmsChannel.raw_data', 'tdms.TdmsChannel.read_data', 'tdms.TdmsChannel.data_chunks', 'tdms.TdmsFile.data_chunks',
                'tdms.TdmsChannel._read_at_index', 'tdms._convert_channel_data_chunk', 'channel_data.TimestampDataReceiver',
-               'channel_data.NumpyDataReceiver', 'channel_data.ListDataReceiver', 'reader.TdmsReader.read_raw_data'],
+               'channel_data.NumpyDataReceiver', 'channel_data.ListDataReceiver', 'reader.TdmsReader.read_raw_data',
+               'reader._array_equal', 'reader._deduplicate_array'],
     bounds=dict(quick='9 file shapes (2-3 segments, <= 3 channels, <= 3 values x <= 2 chunks) x eager/lazy x raw_timestamps on/off x 9 access '
-                      'paths; index and window unbounded (lazy) / bounded (eager)',
+                      'paths; index and window unbounded (lazy) / bounded (eager); kernel: offset-array comparison of _build_index on arrays of solver '
+                      'integers, lengths 0-6 with block size 1-4 (general) and 0..201 around multiples of the default block (one differing position)',
                 thorough='same plus the C04 thorough family for the window path'),
     outside=['memmap_dir (not encodable)', 'file given as a path', 'DAQmx (C11)', 'files outside the family'],
     stubs=c04.META['stubs'],
     assumptions=c04.META['assumptions'],
-    buckets=dict(all=['eager-all-paths', 'lazy-all-paths', 'chunk-streams', 'raw-timestamps', 'channel-without-type']),
+    buckets=dict(all=['eager-all-paths', 'lazy-all-paths', 'chunk-streams', 'raw-timestamps', 'channel-without-type'] + kdedup.BUCKETS),
     replays_per_signature=3,
     validate_samples=10,
 )
@@ -89,6 +93,7 @@ def tasks(tier, seed):
             for mode in ('eager', 'lazy'):
                 for raw_ts in ((False, True) if has_ts else (False,)):
                     ts.append(dict(shape=sh, sid=si, channel=path, mode=mode, raw_ts=raw_ts))
+    ts += kdedup.tasks(tier)
     return ts
 
 
@@ -214,6 +219,8 @@ def access(tf, ch, kind, ctx_int, n, tcode, raw_ts, eager, args=None):
 
 def run_task(task):
     from nptdms import TdmsFile
+    if task.get('kind') == 'dedup':
+        return kdedup.run_task(task)
     enc = s1.build(task['shape'])
     path, raw_ts, eager = task['channel'], task['raw_ts'], task['mode'] == 'eager'
     tcode = enc.channels[path].tcode
@@ -272,6 +279,8 @@ def run_task(task):
 
 def signature(c):
     t = c['task']
+    if t.get('kind') == 'dedup':
+        return kdedup.signature('C03', c)
     enc = s1.build(t['shape'])
     tcode = enc.channels[t['channel']].tcode
     tname = 'no-data-type' if tcode is None else tm.TYPES[tcode][0]
@@ -284,6 +293,8 @@ def signature(c):
 def replay(art):
     from nptdms import TdmsFile
     task, inp = art['task'], art['inputs']
+    if task.get('kind') == 'dedup':
+        return kdedup.replay('C03', art)
     enc = s1.build(task['shape'])
     path, raw_ts, eager = task['channel'], task['raw_ts'], task['mode'] == 'eager'
     tcode = enc.channels[path].tcode
